@@ -70,6 +70,23 @@ Theorem C04_claim_exclusive : forall s,
 Proof. exact claim_exclusive. Qed.
 Print Assumptions C04_claim_exclusive.
 
+(* --- the claim path of reuseUnlockedTasks=true (IsClaimable, the filter of acquireTasks): a creation claims
+       only tasks that NO environment holds - not locked, ACTIVE, in STANDBY, of the wanted class on the
+       wanted host.  The first theorem is the truth table of IsClaimable read from the source on every run
+       (gen/Gen_Claimable.v); the frame theorems above cover creations that claim (what happens to a claimed
+       task - the creation gives up on its deploy timeout and KILLs it - happens to a task nobody held). *)
+Theorem C04_claimable_only_unowned : forall t,
+  claimable t = true -> is_locked t = false /\ t_active t = true /\ t_state t = TS_STANDBY.
+Proof. exact claimable_unlocked. Qed.
+Print Assumptions C04_claimable_only_unowned.
+
+Theorem C04_claim_exclusive_reuse : forall c r j id,
+  In (j, id) (claims c r) ->
+  exists t, In t r /\ t_id t = id /\ is_locked t = false /\ t_active t = true /\ t_state t = TS_STANDBY /\
+            exists ro, In (j, ro) (iroles (c_roles c)) /\ t_ch t = r_ch ro /\ r_ch ro <> 0.
+Proof. exact claims_unowned. Qed.
+Print Assumptions C04_claim_exclusive_reuse.
+
 (* --- a status update that originates from the master (the answers to the reconciliation after a
        re-subscription: TASK_RUNNING, agent id, no executor id, for every running task) changes
        nothing at all: in particular no owned task loses its lock.  The proof rests on
@@ -110,8 +127,8 @@ Print Assumptions C04_detector_race_refuted.
 (* --- the ingredients of the statements above are met by a concrete non-trivial history: two
        environments over different detectors, one of them RUNNING, tasks owned by both. *)
 Example C04_nonvacuous :
-  let c0 := mkSpec [0] 0 [mkRole RPlain true 0 false; mkRole RPlain false 0 false] [] in
-  let c1 := mkSpec [1; 2] 0 [mkRole RPlain true 0 false; mkRole (RHookTask false 3%Z) false 0 false] [] in
+  let c0 := mkSpec [0] 0 [mkRole RPlain true 0 false 0; mkRole RPlain false 0 false 0] [] false in
+  let c1 := mkSpec [1; 2] 0 [mkRole RPlain true 0 false 0; mkRole (RHookTask false 3%Z) false 0 false 0] [] false in
   let ops := [OCreate 0 c0; OCreate 1 c1; OControl 0 2 false; OFail [(0, 1)]] in
   valid_hist st0 ops = true /\ forallb serial_op ops = true /\
   length (s_envs (run st0 ops)) = 2%nat /\ length (s_roster (run st0 ops)) = 4%nat /\
